@@ -40,7 +40,7 @@ func genOps(t *rapid.T, prio bool, huge bool) []qop {
 			ops = append(ops, qop{Op: "enq", Prio: drawPrio(t, prio)})
 		case k < 42:
 			sz := rapid.SampledFrom(burstSizes).Draw(t, "burst")
-			if huge && rapid.IntRange(0, 9).Draw(t, "huge") == 0 {
+			if huge && rapid.IntRange(0, 59).Draw(t, "huge") == 0 {
 				sz = rapid.SampledFrom([]int{102400, 120000, 260000}).Draw(t, "hugeburst")
 			}
 			ops = append(ops, qop{Op: "enqmany", N: sz, Prio: drawPrio(t, prio)})
@@ -92,22 +92,51 @@ func runQueueOps(prio bool, ops []qop) (string, map[string]bool) {
 		fifo = queues.NewQueue[int]()
 		q = fifo
 	}
-	var model []mitem
+	// Reference model, deliberately simple and independent of the implementation (no heap):
+	// FIFO: one list. Priority: one FIFO list per priority value plus the sorted set of values;
+	// the next item is the head of the list of the smallest value that has pending items.
+	var fifoModel []mitem
+	byPrio := map[int][]mitem{}
+	var prios []int // sorted distinct priority values that ever occurred
+	size := 0
 	seq, next := 0, 0
 	closed := false
 	total := 0
-	// the model is kept in dispatch order: FIFO, or stably sorted by (priority, arrival)
 	insert := func(it mitem) {
+		size++
 		if !prio {
-			model = append(model, it)
+			fifoModel = append(fifoModel, it)
 			return
 		}
-		i := sort.Search(len(model), func(k int) bool {
-			return model[k].prio > it.prio || (model[k].prio == it.prio && model[k].seq > it.seq)
-		})
-		model = append(model, mitem{})
-		copy(model[i+1:], model[i:])
-		model[i] = it
+		if _, ok := byPrio[it.prio]; !ok {
+			i := sort.SearchInts(prios, it.prio)
+			prios = append(prios, 0)
+			copy(prios[i+1:], prios[i:])
+			prios[i] = it.prio
+		}
+		byPrio[it.prio] = append(byPrio[it.prio], it)
+	}
+	// head returns the model's next item and whether another item of the same priority is pending
+	head := func() (mitem, bool, func()) {
+		if !prio {
+			return fifoModel[0], false, func() { fifoModel = fifoModel[1:] }
+		}
+		for _, p := range prios {
+			if l := byPrio[p]; len(l) > 0 {
+				return l[0], len(l) > 1, func() { byPrio[p] = byPrio[p][1:] }
+			}
+		}
+		panic("model: head of empty queue")
+	}
+	all := func() []mitem { // every pending item, in model order
+		if !prio {
+			return fifoModel
+		}
+		var out []mitem
+		for _, p := range prios {
+			out = append(out, byPrio[p]...)
+		}
+		return out
 	}
 	enq := func(p int) string {
 		next++
@@ -129,25 +158,26 @@ func runQueueOps(prio bool, ops []qop) (string, map[string]bool) {
 	}
 	deq := func() string {
 		v, ok := q.Dequeue()
-		if len(model) == 0 {
+		if size == 0 {
 			if ok {
 				return fmt.Sprintf("Dequeue on an empty queue returned (%v,true)", v)
 			}
 			return ""
 		}
-		want := model[0]
+		want, tie, pop := head()
 		if !ok || v.(int) != want.val {
-			return fmt.Sprintf("Dequeue returned (%v,%v), the model's next item is %d (prio %d, arrival %d) of %d pending", v, ok, want.val, want.prio, want.seq, len(model))
+			return fmt.Sprintf("Dequeue returned (%v,%v), the model's next item is %d (prio %d, arrival %d) of %d pending", v, ok, want.val, want.prio, want.seq, size)
 		}
-		if prio && len(model) > 1 && model[1].prio == want.prio {
+		if tie {
 			classes["tie-break"] = true
 		}
-		model = model[1:]
+		pop()
+		size--
 		return ""
 	}
 	budget := 60000
 	if os.Getenv("VERIF_TIER") == "thorough" {
-		budget = 600000
+		budget = 300000
 	}
 	for i, op := range ops {
 		msg := ""
@@ -171,21 +201,22 @@ func runQueueOps(prio bool, ops []qop) (string, map[string]bool) {
 				}
 				msg = enq(p)
 			}
-			if len(model) > 1024 {
+			if size > 1024 {
 				classes["beyond-first-segment"] = true
 			}
-			if len(model) > 102400 {
+			if size > 102400 {
 				classes["beyond-max-segment"] = true
 			}
 		case "deq":
 			msg = deq()
 		case "deqmany":
-			for k := 0; k < op.N && msg == "" && (len(model) > 0 || k == 0); k++ {
+			for k := 0; k < op.N && msg == "" && (size > 0 || k == 0); k++ {
 				msg = deq()
 			}
 		case "len":
 		case "values":
 			vals := q.Values()
+			model := all()
 			if len(vals) != len(model) {
 				msg = fmt.Sprintf("Values() has %d items, model %d", len(vals), len(model))
 				break
@@ -217,18 +248,21 @@ func runQueueOps(prio bool, ops []qop) (string, map[string]bool) {
 			}
 		case "purge":
 			q.Purge()
-			if len(model) > 0 {
+			if size > 0 {
 				classes["purge-then-reuse"] = true
 			}
-			model = model[:0]
+			fifoModel = nil
+			byPrio = map[int][]mitem{}
+			prios = nil
+			size = 0
 		case "close":
 			q.Close()
 			closed = true
 			classes["closed"] = true
 		}
 		if msg == "" {
-			if l := q.Len(); l != len(model) {
-				msg = fmt.Sprintf("Len() = %d, model %d", l, len(model))
+			if l := q.Len(); l != size {
+				msg = fmt.Sprintf("Len() = %d, model %d", l, size)
 			}
 		}
 		if msg != "" {
@@ -236,7 +270,7 @@ func runQueueOps(prio bool, ops []qop) (string, map[string]bool) {
 		}
 	}
 	// drain: everything comes out in order
-	for len(model) > 0 {
+	for size > 0 {
 		if msg := deq(); msg != "" {
 			return "final drain: " + msg, classes
 		}
@@ -259,6 +293,9 @@ func TestC04Queues(t *testing.T) {
 		ops := genOps(rt, prio, thorough)
 		msg, classes := runQueueOps(prio, ops)
 		st.Evaluations++
+		if st.Evaluations%200 == 0 {
+			st.write()
+		}
 		kind := "fifo"
 		if prio {
 			kind = "priority"
